@@ -675,12 +675,55 @@ def imported(F, R):
     R.ob('C01.layout-size', 'decoders-consume-exactly-the-frame (C02.frame-exhausted, %d arms)' % n, not badarms and n >= 27, 'accepted with bytes left over: %s' % badarms[:4])
 
 
+def optional_tails(F, R):
+    """MQTT 5 lets DISCONNECT and the four publish acknowledgements end early: after the packet id (Remaining Length 2), or
+    after the reason code (no Property Length). The decoders therefore read the reason code, and later the property block,
+    only on the `has_remaining()` edge, with nothing consumed in between; a decoder that reads the property length
+    unconditionally refuses the short forms a correct peer may send."""
+    CONSUME = r'::(get_u8|get_u16|get_u32|split_to|advance|take_properties|read_properties|decode|read_value|decode_variable_length_cursor)$'
+    n = 0
+    for pat, name in ((r'^v5::codec::packet::disconnect::Disconnect::decode$', 'Disconnect::decode'),
+                      (r'^v5::codec::packet::pubacks::PublishAck::decode$', 'PublishAck::decode'),
+                      (r'^v5::codec::packet::pubacks::PublishAck2::decode$', 'PublishAck2::decode')):
+        b = F.one(pat)
+        guards = []
+        for bi, t in b.calls_to(r'::has_remaining$'):
+            ap = apath(b, t['args'][0]) or ('',)
+            r = call_bool_branch(b, bi)
+            if ap[0] == 'arg1' and len(ap) == 1 and r and r[0] != 'discr':
+                guards.append((r[0], r[1]))
+        cons = [(bi, t) for bi, t in b.calls_to(CONSUME) if t['args'] and (apath(b, t['args'][0]) or ('',)) == ('arg1',)]
+        cons_blocks = {bi for bi, t in cons}
+        def guarded(site):
+            for sb, tt in guards:
+                if not edge_dominates(b, sb, tt, site):
+                    continue
+                between = {c for c in cons_blocks if c != site and c in b.reachable(tt, avoid=[site]) and site in b.reachable_after(c)}
+                if not between:
+                    return True
+            return False
+        props = [bi for bi, t in cons if re.search(r'::(take_properties|read_properties)$|ack_props::decode$', callee_name(t) or '')]
+        codes = [bi for bi, t in cons if (callee_name(t) or '').endswith('::get_u8')]
+        if name == 'Disconnect::decode':
+            first = codes[:]
+        else:
+            # the packet id comes first (always present); the reason code is the get_u8 that follows
+            first = codes[:]
+        n += len(props)
+        R.ob('C01.decode-schema', '%s|property-block-read-only-when-bytes-remain' % name, bool(props) and all(guarded(x) for x in props),
+             'the property length is read without a preceding has_remaining() test (nothing consumed in between): the short form without properties is refused as malformed', b.loc(props[0]) if props else b.loc(0))
+        R.ob('C01.decode-schema', '%s|reason-code-read-only-when-bytes-remain' % name, bool(first) and all(guarded(x) for x in first),
+             'the reason code is read without a preceding has_remaining() test: the shortest form of the packet is refused', b.loc(first[0]) if first else b.loc(0))
+    R.floor('C01.decode-schema', 'optional property blocks of DISCONNECT / PUBACK-family decoders', n, 3)
+
+
 def run(F, R):
     sf = SizeFlow(F)
     consts(F, R)
     first_byte(F, R, sf)
     tables = decode_schema(F, R)
     opt_props_ids(F, R)
+    optional_tails(F, R)
     encode_schema(F, R, sf, tables)
     wire_order(F, R, sf)
     connect_flags(F, R)
